@@ -340,7 +340,7 @@ Fixpoint pump (fuel : nat) (cf : cfg) (now : N) (cs : list conn) (c : conn) (soc
   match fuel with
   | O => (c, led, o, ROutOfFuel)
   | S fuel' =>
-      let '(c1, q, led1, rs) := do_reading (fuel_for sock) cf now c sock sfds led [] 0 in
+      let '(c1, q, led1, rs) := do_reading fuel cf now c sock sfds led [] 0 in     (* the same fuel: enough, see Proofs/FdsFuel.v *)
       let '(o1, led2) := dispatch_all cf cs (c_id c) (sender_gone rs) q led1 in
       match rs with
       | RMore rest => pump fuel' cf now cs c1 rest [] led2 (o ++ o1)
